@@ -66,10 +66,19 @@ def gen_case(seed, tier, index=0):
         plan[inst] = {'execs': execs, 'kind': kind}
     knobs = common.knobs_from(rr, tier)
     knobs['launch_delay'] = rr.choice([0.0, 0.0, 5.0])
-    return {'prog': prog, 'knobs': knobs, 'plan': plan, 'dur': rr.choice([0.3, 1.0, 3.0]), 'sched_seed': rr.getrandbits(48)}
+    return {'prog': prog, 'knobs': knobs, 'plan': plan, 'dur': rr.choice([0.3, 1.0, 3.0]), 'sched_seed': rr.getrandbits(48),
+            'pauses': common.gen_pauses(rr, 0.15), 'slow_wake_p': rr.choice([0.0, 0.3])}
 
 
 def shrink_candidates(case):
+    if case.get('pauses'):
+        c = copy.deepcopy(case)
+        c['pauses'] = []
+        yield c
+    if case.get('pause_on_condition'):
+        c = copy.deepcopy(case)
+        c['pause_on_condition'] = None
+        yield c
     p = case['prog']
     if p.get('second'):
         c = copy.deepcopy(case)
@@ -150,6 +159,8 @@ def run_case(case, schedule, opts):
         ctx.exp = exp
         controller, comps = R.new_controller(exp)
         ctx.controller = controller
+        if case.get('pauses'):
+            R.start_operator(case['pauses'], slow_wake_p=case.get('slow_wake_p', 0.0))
         try:
             R.run_stages(exp, controller, REC, outcomes)
             states_end = R.states_of(controller)
